@@ -105,12 +105,27 @@ theorem stdin_like_dashes (cmd : Col → Except Err String) :
 
 /-- Empty stdin means "no colours", not an error, for the iterating commands (for `mix`: once its
 base and fraction have been read); a `-` argument with empty stdin is `CouldNotReadFromStdin`. -/
-theorem empty_stdin (sub : String) (args : List String) (hsub : sub ≠ "mix") :
+theorem empty_stdin (sub : String) (args : List String)
+    (hsub : sub ≠ "mix" ∧ sub ≠ "gray" ∧ sub ≠ "gradient" ∧ sub ≠ "sort-by" ∧ sub ≠ "paint") :
     run sub args [] [] = { lines := [], err := none } ∧
     (loopArgs (commandBody sub args) ["-"] []).err = some .couldNotReadFromStdin := by
   constructor
-  · unfold run; simp [loopStdin, hsub]
+  · unfold run; simp [loopStdin, hsub.1, hsub.2.1, hsub.2.2.1, hsub.2.2.2.1, hsub.2.2.2.2]
   · simp [loopArgs, colorFromArg, colorFromStdin]
+
+/-- `sort-by` with no colours and an empty stdin prints nothing and succeeds; with an unreadable
+colour anywhere in the list it prints nothing at all (the colours are collected first). -/
+theorem sort_collects_first (order u r : String) (colors : List String) (stdin : List StdinLine) (e : Err)
+    (h : (if colors.isEmpty then collectStdin stdin else collectArgs colors stdin) = .error e) :
+    run "sort-by" [order, u, r] [] [] = { lines := [], err := none } ∧
+    run "sort-by" [order, u, r] colors stdin = { lines := [], err := some e } := by
+  constructor
+  · unfold run runSort
+    simp [collectStdin, sortCmd, stableSortBy, dedupByKey]
+  · unfold run runSort
+    simp only [show ("sort-by" = "mix") = False by decide, show ("sort-by" = "gray") = False by decide,
+      show ("sort-by" = "gradient") = False by decide, if_false, if_true]
+    rw [h]; rfl
 
 /-- `mix` with no colours and an empty stdin: nothing is printed; the run succeeds exactly when the
 base and the fraction can be read (an unparsable base or fraction is reported even then). -/
